@@ -93,7 +93,7 @@ def gen_source(case: dict, uid: str) -> str:
     lines = []
     for nd in case["nodes"]:
         nm = nd["name"]
-        kw = [f"nm={nm!r}", "ctl=ctl"]
+        kw = [f"nm={nm!r}", "ctl=ctl", "mode=mode"]
         if nd.get("inherit"):
             kw.append("inherit=True")
         for i, p in enumerate(nd["preds"]):
@@ -110,7 +110,7 @@ def gen_source(case: dict, uid: str) -> str:
     return (
         "import typing as ty\nfrom pydra.compose import workflow\nfrom harness.engines.sched_worker import Body\n\n"
         f"@workflow.define(outputs={[f'o_{o}' for o in outs]!r})\n"
-        f"def W_{uid}(ctl: str):\n" + "\n".join(lines) + "\n    return " + ", ".join(f"{o}.out" for o in outs) + "\n"
+        f"def W_{uid}(ctl: str, mode: str):\n" + "\n".join(lines) + "\n    return " + ", ".join(f"{o}.out" for o in outs) + "\n"
     )
 
 
@@ -161,7 +161,12 @@ class Player:
         order = list(pending)
         if st in ("random", "lazy"):
             rng.shuffle(order)
-        p_acq, p_fin, p_done = {"fifo": (1, 1, 1), "greedy": (1, 0, 0), "lazy": (0, 0, 0), "random": (0.6, 0.5, 0.6)}[st]
+        p_acq, p_fin, p_done = {"fifo": (1, 1, 1), "greedy": (1, 0, 0), "lazy": (0, 0, 0), "random": (0.6, 0.5, 0.6),
+                                "failslast": (1, 0, 0)}[st]
+        if st == "failslast":
+            # every dispatched body starts at once; exactly one completes per round, failing bodies as late as
+            # possible: they are *seen running* by many polls before they fail (the D10 pattern)
+            order = [x for x in order if x not in self.fail] + [x for x in order if x in self.fail]
 
         def advance(x, force=False):
             """move job x one or more steps forward; with `force` all the way to completion"""
@@ -187,7 +192,7 @@ class Player:
             advance(x)
         if not done and not van:  # the loop is blocked in asyncio.wait: some future has to complete
             cand = [x for x in order if t[x] in ("fin", "ok", "err")] or [x for x in order if t[x] == "locked"] or order
-            advance(cand[0] if st in ("fifo", "greedy") else rng.choice(cand), force=True)
+            advance(cand[0] if st in ("fifo", "greedy", "failslast") else rng.choice(cand), force=True)
         return {"acq": acq, "fin": fin, "van": van, "done": done}
 
     async def play_round(self, mv: dict, pending: list[str]):
@@ -349,7 +354,7 @@ def run_controlled(case: dict, scratch: Path) -> dict:
     obs: dict = {}
     Workflow.clear_cache()
     mod = load_module(gen_source(case, uid), base, uid)
-    wf = getattr(mod, f"W_{uid}")(ctl=str(ctl_dir))
+    wf = getattr(mod, f"W_{uid}")(ctl=str(ctl_dir), mode="gate")
     ctl = W.Control(ctl_dir, k)
     W.CONTROL = ctl
     outcome, msg, outputs = "ok", "", None
@@ -441,27 +446,38 @@ def run_controlled(case: dict, scratch: Path) -> dict:
 
 
 def run_free(case: dict, scratch: Path) -> dict:
-    """unmodified worker (`debug` or `cf` with n processes), bodies do not wait for anything"""
+    """unmodified worker (`debug` or `cf` with n processes); bodies do not wait for anything.  With `"log": true`
+    they append start/end lines to a log and the tags in `fail` raise (execution order of the debug worker)."""
     from pydra.engine.submitter import Submitter
     from pydra.engine.workflow import Workflow
 
     uid = f"{os.getpid()}_{next(_uid)}"
     base = Path(tempfile.mkdtemp(prefix=f"schedfree_{uid}_", dir=scratch))
-    cache_root = base / "cache"
+    cache_root, ctl_dir = base / "cache", base / "ctl"
     cache_root.mkdir()
+    ctl_dir.mkdir()
     Workflow.clear_cache()
     k = case.get("k")
+    log = bool(case.get("log"))
     try:
         mod = load_module(gen_source(case, uid), base, uid)
-        wf = getattr(mod, f"W_{uid}")(ctl="")
+        wf = getattr(mod, f"W_{uid}")(ctl=str(ctl_dir) if log else "", mode="log:" + ",".join(case.get("fail") or []))
         kw = {"n_procs": case["n_procs"]} if case["worker"] == "cf" else {}
+        outcome, outputs, msg = "ok", None, ""
         try:
             with Submitter(worker=case["worker"], cache_root=cache_root, max_concurrent=(float("inf") if k is None else k), **kw) as sub:
                 res = sub(wf, raise_errors=True)
             outputs = {nd["name"]: canon(getattr(res.outputs, "o_" + nd["name"])) for nd in case["nodes"]}
-            return {"outcome": "ok", "outputs": outputs, "cache": cache_state(cache_root)}
         except Exception as e:  # noqa: BLE001
-            return {"outcome": type(e).__name__, "outputs": None, "msg": str(e)[-300:]}
+            outcome, msg = type(e).__name__, str(e)
+        order = []
+        if log and (ctl_dir / "log").exists():
+            for line in (ctl_dir / "log").read_text().splitlines():
+                p = line.split()
+                order.append(p[0] + " " + p[1])
+        m = re.search(r"body (\S+) fails as scheduled", msg)
+        return {"outcome": outcome, "outputs": outputs, "bodylog": order, "raised": m.group(1) if m else None,
+                "cache": cache_state(cache_root), "msg": msg[-300:] if os.environ.get("VERIF_SCHED_DEBUG") else ""}
     finally:
         Workflow.clear_cache()
         sys.modules.pop(f"schedgen_{uid}", None)
@@ -535,6 +551,26 @@ def run_cases(cases: list[dict], scratch: Path, per_case_timeout: float = 150.0)
             except subprocess.TimeoutExpired:
                 _kill_tree(p)
     return results
+
+
+def run_cases_parallel(cases: list[dict], scratch: Path, nproc: int = 4, per_case_timeout: float = 200.0) -> list[dict]:
+    """the same, spread over `nproc` child interpreters (all synchronisation is on files/events, so load is harmless)"""
+    from concurrent.futures import ThreadPoolExecutor
+
+    if not cases:
+        return []
+    nproc = max(1, min(nproc, len(cases)))
+    chunks = [list(range(i, len(cases), nproc)) for i in range(nproc)]
+    out: list = [None] * len(cases)
+
+    def work(ix):
+        res = run_cases([cases[i] for i in ix], scratch, per_case_timeout)
+        for i, r in zip(ix, res):
+            out[i] = r
+
+    with ThreadPoolExecutor(nproc) as ex:
+        list(ex.map(work, chunks))
+    return out
 
 
 def _kill_tree(p):
@@ -767,3 +803,61 @@ def reference_outputs(case: dict) -> dict:
         else:
             val[nm] = ["J", nm, deps]
     return val
+
+
+# --------------------------------------------------------------------------------------------------
+# shared correspondence step of the property modules C14-C18
+
+
+def njobs(case: dict) -> int:
+    return len(all_tags(case))
+
+
+def case_key(case: dict, obs: dict) -> str:
+    return json.dumps(
+        {"n": case["nodes"], "ks": case.get("keep_state"), "k": case.get("k"), "f": sorted(case.get("fail") or []),
+         "v": case.get("vanish"), "s": obs.get("schedule")},
+        sort_keys=True,
+    )
+
+
+def explore(ctx, cases: list[dict], spec, what: str, nproc: int | None = None, defect=None):
+    """Run the cases under the controlled worker, replay the recorded schedules on the Lean model, judge.
+    `spec(case, obs) -> (ok, detail)` is the property oracle on the implementation's observation;
+    `defect(case, obs) -> finding id | None` the match rule of a known finding."""
+    from harness import core
+
+    if not cases:
+        return []
+    nproc = nproc or ctx.pick(6, 8)
+    obs = run_cases_parallel(cases, ctx.scratch, nproc)
+    infra = [o for o in obs if o.get("outcome") in ("HARNESS-EXCEPTION", "CHILD-DIED")]
+    if infra:
+        raise core.Infra("sched device failed: " + json.dumps(infra[0])[-800:])
+    ans = ctx.driver("Sched", [model_query(c, o.get("schedule") or []) for c, o in zip(cases, obs)])
+    out = []
+    for i, (c, o) in enumerate(zip(cases, obs)):
+        iv, it = impl_view(c, o)
+        if ans is not None and "error" in ans[i]:
+            ctx.tie_broken.append({"kind": "model-driver", "detail": ans[i], "case": c})
+            mv, mt = None, []
+        else:
+            mv, mt = model_view(c, ans[i]) if ans is not None else (None, [])
+        ok, detail = spec(c, o)
+        rec = dict(c)
+        rec["script"] = o.get("schedule")  # replayable: the recorded schedule
+        ctx.count("outcome:" + str(iv.get("outcome")))
+        ctx.count(f"jobs={njobs(c)}")
+        ctx.count(f"k={c.get('k')}")
+        ctx.count("style:" + str((c.get("policy") or {}).get("style", "script")))
+        if mv is not None:
+            ctx.count("tables_agree" if it == mt else "tables_differ")  # model fidelity, informational
+        style = (c.get("policy") or {}).get("style", "script")
+        nontrivial = njobs(c) >= 3 and style != "fifo"
+        v = ctx.judge(rec, iv, mv, ok, nontrivial=nontrivial, key=case_key(c, o),
+                      defect=defect(c, o) if defect else None, what=what + (": " + detail if detail else ""))
+        out.append((c, o, iv, mv, v))
+    ctx.extra["traces_validated_against_impl"] = ctx.extra.get("traces_validated_against_impl", 0) + sum(
+        1 for (_, _, iv, mv, _) in out if mv is not None and iv == mv
+    )
+    return out
